@@ -315,6 +315,21 @@ func (tr *TemplateRecord) unmarshalOpts(r *reader.Reader) error {
 	return nil
 }
 
+// recordLen returns the length of a data record the template describes
+func (tr *TemplateRecord) recordLen() int {
+	var n int
+
+	for _, f := range tr.ScopeFieldSpecifiers {
+		n += int(f.Length)
+	}
+
+	for _, f := range tr.FieldSpecifiers {
+		n += int(f.Length)
+	}
+
+	return n
+}
+
 func (d *Decoder) decodeData(tr TemplateRecord) ([]DecodedField, error) {
 	var (
 		fields []DecodedField
@@ -435,8 +450,16 @@ func (d *Decoder) decodeSet(mem MemCache, msg *Message) error {
 		}
 	}
 
-	// the next set should be greater than 4 bytes otherwise that's padding
-	for err == nil && (int(setHeader.Length)-(d.reader.ReadCount()-startCount) > 4) && d.reader.Len() > 4 {
+	// what is left of a flowset is padding once it is shorter than a record
+	// of the flowset; a template record takes more than 4 bytes
+	minLen := 5
+	if setHeader.FlowSetID > 255 && err == nil {
+		if minLen = tr.recordLen(); minLen < 1 {
+			minLen = 1
+		}
+	}
+
+	for err == nil && (int(setHeader.Length)-(d.reader.ReadCount()-startCount) >= minLen) && d.reader.Len() >= minLen {
 		if setId := setHeader.FlowSetID; setId == 0 || setId == 1 {
 			// Template record or template option record
 			tr := TemplateRecord{}
